@@ -95,7 +95,18 @@ func (w *World) ruleEveryValueStored(r *Report, rule string) {
 			}
 			sc := x.Call.StaticCallee()
 			if sc == nil {
-				return false
+				// a function value (a store closure handed to a shared loop): every
+				// function it can be stores into a container
+				cs := w.calleesOf(x)
+				if len(cs) == 0 {
+					return false
+				}
+				for _, c := range cs {
+					if !w.inPkg(c) || !(setterFns[c] || containerStoreFn(w, c)) {
+						return false
+					}
+				}
+				return true
 			}
 			n := qualifiedFnName(sc)
 			if n == "reflect.Append" || n == "reflect.AppendSlice" || strings.HasPrefix(n, "(reflect.Value).Set") {
@@ -110,10 +121,47 @@ func (w *World) ruleEveryValueStored(r *Report, rule string) {
 		}
 		return false
 	}
+	// the functions in which container readers do their own work: reachable from a
+	// reader that registers a list / map with the decoder's ref table, without
+	// going through the value dispatch (which leads to all the other readers) and
+	// without entering the scalar decoders
+	work := map[*ssa.Function]map[*ssa.Function]bool{} // function -> readers it works for
+	scalarDec := map[*ssa.Function]bool{}
+	for _, c := range w.codecs() {
+		if c.Dec != nil {
+			scalarDec[c.Dec] = true
+		}
+	}
+	var readersList []*ssa.Function
+	if reg := w.decRegistrar(); reg != nil {
+		for fn := range w.registeringFuncs(reg) {
+			if len(callsTo(fn, reg)) == 0 {
+				continue
+			}
+			readersList = append(readersList, fn)
+			seen := map[*ssa.Function]bool{fn: true}
+			stack := []*ssa.Function{fn}
+			for len(stack) > 0 {
+				g := stack[len(stack)-1]
+				stack = stack[:len(stack)-1]
+				if work[g] == nil {
+					work[g] = map[*ssa.Function]bool{}
+				}
+				work[g][fn] = true
+				for _, c := range w.cgCallees(g) {
+					if c == rd || seen[c] || !w.inPkg(c) || scalarDec[c] {
+						continue
+					}
+					seen[c] = true
+					stack = append(stack, c)
+				}
+			}
+		}
+	}
 	n := 0
+	loopFns := map[*ssa.Function]bool{}
 	for _, fn := range w.SrcFuncs() {
-		recv := fn.Signature.Recv()
-		if recv == nil || !namedIs(recv.Type(), hessianPath, "Decoder") {
+		if work[fn] == nil && work[rootFn(fn)] == nil {
 			continue
 		}
 		// the function makes the container it fills
@@ -156,6 +204,12 @@ func (w *World) ruleEveryValueStored(r *Report, rule string) {
 							case "reflect.Append", "reflect.AppendSlice", "(reflect.Value).SetMapIndex":
 								fills = true
 							}
+						} else {
+							for _, c := range w.calleesOf(x) {
+								if w.inPkg(c) && containerStoreFn(w, c) {
+									fills = true
+								}
+							}
 						}
 						for _, a := range x.Call.Args {
 							if ic, ok := a.(*ssa.Call); ok && ic.Call.StaticCallee() != nil && qualifiedFnName(ic.Call.StaticCallee()) == "(reflect.Value).Index" {
@@ -169,7 +223,11 @@ func (w *World) ruleEveryValueStored(r *Report, rule string) {
 				continue
 			}
 			n++
-			// DFS from the instruction after each read to the header, stopping at stores
+			loopFns[fn] = true
+			loopFns[rootFn(fn)] = true
+			// a cycle from a read back to the same read that passes no store: the value
+			// read is dropped and the next one is read (whatever the loop form: the
+			// read may sit in the body, in the loop's post statement or in its condition)
 			reached, via := false, ""
 			var last *ssa.Call
 			for _, rdCall := range reads {
@@ -178,9 +236,14 @@ func (w *World) ruleEveryValueStored(r *Report, rule string) {
 				}
 				last = rdCall
 				seen := map[*ssa.BasicBlock]bool{}
-				var scan func(b *ssa.BasicBlock, from int)
-				scan = func(b *ssa.BasicBlock, from int) {
+				var scan func(b *ssa.BasicBlock, from int, first bool)
+				scan = func(b *ssa.BasicBlock, from int, first bool) {
 					for _, in := range b.Instrs[from:] {
+						if in == ssa.Instruction(rdCall) && !first {
+							reached = true
+							via = w.instrPos(rdCall)
+							return
+						}
 						if isStore(in) {
 							return
 						}
@@ -189,33 +252,78 @@ func (w *World) ruleEveryValueStored(r *Report, rule string) {
 						if !lp.body[s] {
 							continue
 						}
-						if s == lp.header {
-							reached = true
-							if via == "" {
-								via = w.instrPos(b.Instrs[len(b.Instrs)-1])
-							}
+						if s == rdCall.Block() && !seen[s] {
+							// re-entering the read's block: scan it from the top up to the read
+							seen[s] = true
+							scan(s, 0, false)
 							continue
 						}
 						if !seen[s] {
 							seen[s] = true
-							scan(s, 0)
+							scan(s, 0, false)
 						}
 					}
 				}
 				idx := 0
-				for i, in := range last.Block().Instrs {
-					if in == ssa.Instruction(last) {
+				for i, in := range rdCall.Block().Instrs {
+					if in == ssa.Instruction(rdCall) {
 						idx = i + 1
 					}
 				}
-				scan(last.Block(), idx)
+				scan(rdCall.Block(), idx, true)
 			}
 			fact := "after a successful element read every way back to the loop header passes a store into the container"
 			if reached {
-				fact = "an iteration can complete (back edge at " + via + ") after the element read at " + w.instrPos(last) + " without storing anything: in the append-built forms the element is dropped and every later one shifts (a null — empty string, zero time, nil — is a value)"
+				fact = "the element read at " + via + " can be reached again from itself without any store in between: in the append-built forms the element is dropped and every later one shifts (a null — empty string, zero time, nil — is a value)"
 			}
 			r.add(rule, fmt.Sprintf("%s · loop#%d", fnName(fn), li+1), w.instrPos(last), !reached, fact)
 		}
 	}
-	r.floor(rule+" (container-building loops)", n, 4)
+	// floor: every container reader that registers a list or a map with the decoder's
+	// ref table reaches (without going through the value dispatch) a loop that was
+	// examined — loops may be shared between readers or live in helpers
+	served, readers := 0, len(readersList)
+	for _, rdr := range readersList {
+		for g := range loopFns {
+			if work[g][rdr] {
+				served++
+				break
+			}
+		}
+	}
+	r.note("%s: %d loops examined; %d of %d registering container readers reach one", rule, n, served, readers)
+	r.floor(rule+" (container readers whose element loop was examined)", served, 4)
+}
+
+// containerStoreFn: fn itself appends to a slice, sets a map entry or stores an
+// indexed element (a store closure of a shared element loop).
+func containerStoreFn(w *World, fn *ssa.Function) bool {
+	for _, b := range fn.Blocks {
+		for _, in := range b.Instrs {
+			switch x := in.(type) {
+			case *ssa.MapUpdate:
+				return true
+			case *ssa.Store:
+				if _, ok := x.Addr.(*ssa.IndexAddr); ok {
+					return true
+				}
+			case *ssa.Call:
+				if bi, ok := x.Call.Value.(*ssa.Builtin); ok && bi.Name() == "append" {
+					return true
+				}
+				if sc := x.Call.StaticCallee(); sc != nil {
+					switch qualifiedFnName(sc) {
+					case "reflect.Append", "reflect.AppendSlice", "(reflect.Value).SetMapIndex":
+						return true
+					}
+				}
+				for _, a := range x.Call.Args {
+					if ic, ok := a.(*ssa.Call); ok && ic.Call.StaticCallee() != nil && qualifiedFnName(ic.Call.StaticCallee()) == "(reflect.Value).Index" {
+						return true
+					}
+				}
+			}
+		}
+	}
+	return false
 }
